@@ -167,6 +167,48 @@ def check_thermal(r, which):
                 fail("thermal/" + label, rec)
 
 
+def check_thermal_other_model(r):
+    """ThermalProp(init_mpdm, h_mpo_model=M2) with M2 != init_mpdm.model: the purified state must be the normalised
+    exp(-beta H2 / 2) applied to the initial purified operator, the averages those of H2 (the GIVEN Hamiltonian)."""
+    nbas = int(r.choice([2, 3]))
+    m1, h1, dims, info1 = holstein_model(2, nbas, r)
+    m2, h2, dims2, info2 = holstein_model(2, nbas, r)         # other energies, couplings, hopping; same degrees of freedom
+    esites, vsites = [0, 2], [1, 3]
+    cfgs = list(itertools.product(*[range(d) for d in dims]))
+    for label, method, nst_per in (("ps/krylov", "tdvp_ps", 2), ("taylor4", "prop_and_compress", None)):
+        for beta in (0.5, 3.0):
+            if time.time() - T0 > 1.5 * BUDGET:
+                return
+            nst = nst_per if nst_per else max(4, int(np.ceil(beta / 2 / 0.02)))
+            init = MpDm.max_entangled_ex(m1)
+            rho0 = dense_of(init)
+            try:
+                a = init.copy()
+                a.compress_config = CompressConfig(CompressCriteria.fixed, max_bonddim=64)
+                tp = ThermalProp(a, h_mpo_model=m2, evolve_config=EvolveConfig(getattr(EvolveMethod, method)))
+                tp.evolve(evolve_dt=-1j * beta / 2 / nst, nsteps=nst)
+            except Exception as ex:
+                rec = {"check": "thermal-other-model", "scheme": label, "beta": beta, "exc": repr(ex)[:300]}
+                records.append(rec)
+                fail("exception/thermal-other-model", rec)
+                continue
+            ref = sla.expm(-beta / 2 * h2) @ rho0
+            ref = ref / np.linalg.norm(ref)
+            got = dense_of(tp.latest_mps)
+            e_op = float(np.linalg.norm(got - ref))
+            ex_ = lambda o: float(np.real(np.trace(ref.conj().T @ o @ ref)))
+            occ_ref = [ex_(np.diag(np.array([c[k] for c in cfgs], dtype=float))) for k in esites + vsites]
+            occ = [float(x) for x in tp.e_occupations_array[-1]] + [float(x) for x in tp.ph_occupations_array[-1]]
+            dev = max([abs(a_ - b_) for a_, b_ in zip(occ, occ_ref)] + [abs(float(np.real(tp.energies[-1])) - ex_(h2)) / max(1.0, abs(ex_(h2)))])
+            hn = float(np.linalg.norm(h2, 2))
+            bound = 1e-5 if nst_per else 50 * nst * (hn * beta / 2 / nst) ** 5 + 1e-6
+            rec = {"check": "thermal-other-model", "scheme": label, "beta": beta, "nsteps": nst, "operator_dist": e_op, "expectation_dev": dev,
+                   "bound": bound, "occupations": occ, "occupations_ref_H2": occ_ref}
+            records.append(rec)
+            if not (dev <= bound and e_op <= 10 * bound):
+                fail("thermal-other-model/" + label, rec)
+
+
 THERMAL = [("ps/krylov", "tdvp_ps", {}, "exact"), ("ps2/krylov", "tdvp_ps2", {}, "exact"),
            ("tdrk4", "prop_and_compress_tdrk4", {}, 4), ("taylor4", "prop_and_compress", {}, 4),
            ("tdrk/C_RK4", "prop_and_compress_tdrk", {"rk_solver": "C_RK4", "guess_dt": "IDT"}, 4),
@@ -179,6 +221,7 @@ for kind in ("spin", "holstein"):
         jobs.append(("imag", kind, li))
 for ti_ in range(len(THERMAL)):
     jobs.append(("thermal", "holstein", ti_))
+jobs.append(("thermal-other-model", "holstein", 0))
 mine = [j for i, j in enumerate(jobs) if i % NSH == SHARD]
 skipped = 0
 for what, kind, li in mine:
@@ -206,6 +249,8 @@ for what, kind, li in mine:
             e = MpDm.from_mps(st_r)
             e.compress_config = CompressConfig(CompressCriteria.fixed, max_bonddim=64)
             check_imag(label, method, cfg, knd, mname, model, h, e.expand_bond_dimension(hint_mpo=Mpo(model), coef=1e-6), "mpdm-expanded")
+    elif what == "thermal-other-model":
+        check_thermal_other_model(r2)
     else:
         check_thermal(r2, THERMAL[li])
 
